@@ -78,6 +78,8 @@ def doc(c, indent, what):
         return ""
     if c["doc"] == "all":
         return f"{indent}/// The {what}\n"
+    if c["doc"] == "block":
+        return f"{indent}/** The {what}: first line of a block comment\n{indent} * second line, with an adjacent word\n{indent} */\n"
     hostile = 'glob src/**/*.rs closes */ opens /* quotes """ and ends with a backslash \\'
     if c["doc"] == "hostile":
         return f"{indent}/// The {what}: {hostile}\n"
